@@ -430,7 +430,7 @@ func c01DAACSV(l *explore.Local, e *cpuEnv, c c01Case, repo string) *explore.Fai
 func init() {
 	register("C01", "model_checking", func(c *Ctx) {
 		if c.R != nil {
-			c.R.Rule = "single-step relation state x instruction -> state of the real CPU (ExecuteMachineCycle until the next boundary) compared with an independent reference interpreter: all registers and flags, every addressed memory write, F low nibble, and a full diff of all writable memory on a spread of cases; complete products per family (8-bit ALU: A x operand x flags; INC/DEC/CB/accumulator ops: value x 16 flags; INC/DEC rr: all 65,536; ADD SP,e and LD HL,SP+e: SP x e; ADD HL,rr: the stated carry-chain sub-domain; every opcode: 13 pointer placements x 16 flags x operand pairs x 4 code placements); a case = one (family, opcode, block)"
+			c.R.Rule = "single-step relation state x instruction -> state of the real CPU (ExecuteMachineCycle until the next boundary) compared with an independent reference interpreter: all registers and flags, every addressed memory write, F low nibble, and a full diff of all writable memory on a spread of cases; complete products per family (8-bit ALU: A x operand x flags; INC/DEC/CB/accumulator ops: value x 16 flags; INC/DEC rr: all 65,536; ADD SP,e and LD HL,SP+e: SP x e; ADD HL,rr: the stated carry-chain sub-domain; every opcode: 13 pointer placements x 16 flags x operand pairs x 4 code placements); and every ordered pair of opcodes with the second executed right after the first without re-seeding the CPU (its effect must not depend on the predecessor); a case = one (family, opcode, block)"
 			c.R.Assumptions = []string{"ADD HL,rr is enumerated over lo12 x lo12 with zero high nibbles plus hi4 x hi4 x {000,FFF,800,7FF}^2, not all 2^32 pairs", "STOP: PC+1 or PC+2 accepted", "data pointers are placed in memory-like regions (VRAM/OAM with the LCD off, WRAM, echo, HRAM, IE, ROM, absent cart RAM); I/O registers are addressed only for JOYP/SB/HRAM", "IME effects of EI/DI/RETI/HALT belong to C04/C05"}
 		}
 		thorough := c.Thorough()
@@ -533,5 +533,24 @@ func init() {
 				}
 				return explore.Failf("harness: unknown family", "%s", fmt.Sprint(cs.Fam))
 			})
+		// every ordered pair of opcodes, the second executed right after the first without re-seeding the CPU:
+		// what an instruction does must not depend on what ran before it
+		pairFlags := []uint8{0x00, 0xf0}
+		if c.Thorough() {
+			pairFlags = []uint8{0x00, 0x50, 0xa0, 0xf0}
+		}
+		explore.Product(c.R, "opcode-pairs-effect", explore.PartOpt{Bound: "two instructions, CPU not re-seeded in between; registers, flags and addressed memory compared after each", Domain: fmt.Sprintf("every ordered pair of the 500 executable encodings x flag nibbles %02x", pairFlags)},
+			func(yield func(c02Case) bool) {
+				for op := 0; op < 512; op++ {
+					if op < 256 && (ref.UndefinedOpcodes[uint8(op)] || op == 0xcb) {
+						continue
+					}
+					for _, fl := range pairFlags {
+						if !yield(c02Case{Op1: op, Op2: -1, Flags: fl, Effect: true}) {
+							return
+						}
+					}
+				}
+			}, newCPUEnv, c02Check)
 	})
 }
